@@ -236,7 +236,12 @@ def gen_impl_method(w, case, iface, m, plan_list):
     name = m["name"]
     params = impl_params(case, m)
     sig = ", ".join([f"zz_ctx_{iface} *zz_me"] + params)
-    w(f"static int32_t impl_c_{iface}_{name}({sig})")
+    # the skeleton macro re-declares optional methods `__attribute__((weak))`: a user who provides
+    # one has to give it external linkage (a weak declaration cannot follow a static definition)
+    linkage = "" if m.get("optional") else "static "
+    if not linkage:
+        w(f"int32_t impl_c_{iface}_{name}({sig});")
+    w(f"{linkage}int32_t impl_c_{iface}_{name}({sig})")
     w("{")
     w.ind += 1
     w("zz_sb zz;")
@@ -365,7 +370,7 @@ def gen_impl(w, case, iface, flat, plans):
     w("}")
     w()
     for owner, m, op in flat:
-        if m.get("optional"):
+        if m.get("optional") and not m.get("implemented"):
             w(f"/* optional method {m['name']} (op {op}) intentionally left undefined */")
             w()
             continue
